@@ -680,7 +680,7 @@ fn gen_part3(thorough: bool, out: &mut dyn FnMut(String)) {
     // giant total.  (template, joining axis, quick tier?)
     let joins: Vec<(Vec<usize>, usize, bool)> = vec![
         (vec![M + 5], 0, true), (vec![M], 0, false), (vec![2 * M + 1], 0, false), (vec![M + 64], 0, false), (vec![3 * M / 2], 0, false),
-        (vec![1, M + 5], 0, true), (vec![2, M + 7], 0, false), (vec![1, 2 * M + 3], 0, false),
+        (vec![1, M + 5], 0, true), (vec![2, M + 7], 0, false),
         (vec![M + 7, 1], 1, true), (vec![M + 64, 2], 1, false), (vec![1031, 1033, 1], 2, false),
         (vec![1025, 1, 1025], 1, true), (vec![3, 1, 400_001], 1, false), (vec![1024, 2, 1024], 1, false), (vec![1, 1031, 1033], 0, false),
         (vec![33, 1, 31, 1033], 1, true), (vec![2, 2, 1, 262_147], 2, true), (vec![1, 16, 65, 1009], 0, false), (vec![64, 128, 129, 1], 3, false),
@@ -689,18 +689,19 @@ fn gen_part3(thorough: bool, out: &mut dyn FnMut(String)) {
     for (q, (tpl, ax, quick)) in joins.iter().enumerate() {
         let (nd, ax) = (tpl.len(), *ax);
         let with = |len: usize, o: i64| { let mut t = tpl.clone(); t[ax] = len; io(&t, o) };
-        let a = io(tpl, 0);
+        let a = io(tpl, 0); let n: usize = tpl.iter().product();
         if thorough || *quick {
             // both orders: the giant pieces come from the first / the second input
-            if q % 2 == 0 || thorough { out(format!("g append {a} {} {ax}", with(if thorough { 2 } else { 1 }, off))); }
-            if q % 2 == 1 || thorough { out(format!("g append {} {a} {ax}", with(if thorough { 1 + q % 3 } else { 1 }, off))); }
+            if q % 2 == 0 || thorough { out(format!("g append {a} {} {ax}", with(1, off))); }
+            if q % 2 == 1 || thorough { out(format!("g append {} {a} {ax}", with(if thorough && n <= 1_200_000 { 1 + q % 2 } else { 1 }, off))); }
         }
         if thorough {
-            out(format!("g concatenate {a};{};{} {ax}", with(1, off), with(tpl[ax], 2 * off)));
-            out(format!("g append_self {a} {ax}"));
-            if nd <= 3 && ax < nd { out(format!("g stack {a};{} {ax}", io(tpl, off))); }
+            if n <= 1_100_000 { out(format!("g concatenate {};{a};{} {ax}", with(1, off), with(1, 2 * off))); } else { out(format!("g concatenate {};{a} {ax}", with(1, off))); }
+            if n <= 1_200_000 { out(format!("g append_self {a} {ax}")); }
+            if nd <= 3 && n <= 1_200_000 { out(format!("g stack {a};{} {ax}", io(tpl, off))); }
+            // (hstack of inputs that differ along axis 1 is the open known finding: equal shapes there)
             let conv = match (nd, ax) { (1, 0) => Some("hstack"), (_, 0) => Some("vstack"), (_, 1) => Some("hstack"), (_, 2) => Some("dstack"), _ => None };
-            if let Some(op) = conv { out(format!("g {op} {a};{}", with(1, off))); }
+            if let Some(op) = conv { out(format!("g {op} {a};{}", if op == "hstack" && nd > 1 { if n <= 1_200_000 { io(tpl, off) } else { continue } } else { with(1, off) })); }
         }
     }
     // the flat joins, stacking vectors, exact multiples of the 2^20 mark next to each other, aliasing, the promotions
@@ -733,7 +734,7 @@ fn gen_part3(thorough: bool, out: &mut dyn FnMut(String)) {
             let mut ps = vec![2usize, uneven(d), 7, 1]; if d < 7 { ps.push(d); ps.push(d + 1); } ps.sort(); ps.dedup();
             for p in ps { if (p + q + ax) % 2 == 0 || p == uneven(d) { out(format!("g array_split {a} {p} {ax}")); } }
             for p in [2usize, 3, 4, 5, 7] { if d % p == 0 { out(format!("g split {a} {p} {ax}")); break; } }
-            if d <= 5 { out(format!("g split_axis {a} {ax}")); out(format!("g split_concat {a} {} {ax}", d.max(2))); }
+            if d <= 5 { out(format!("g split_axis {a} {ax}")); out(format!("g split_concat {a} {} {ax}", d.clamp(2, 3))); }
             else if nd == 1 { out(format!("g split_concat {a} {} {ax}", uneven(d))); }
         }
         if thorough { out(format!("g array_split {a} 2 none")); out(format!("g hsplit {a} 1")); if nd >= 2 && s[0] % 2 == 0 { out(format!("g vsplit {a} 2")); } if nd >= 3 { out(format!("g dsplit {a} {}", if s[2] % 2 == 0 { 2 } else { 1 })); } }
@@ -923,6 +924,7 @@ fn diff_detail(obs: &str, want: &str) -> String {
 
 // ---------------------------------------------------------------- executor
 
+fn fnv_args(args: &[&str]) -> u64 { args.iter().flat_map(|a| a.bytes().chain(std::iter::once(b' '))).fold(0xcbf29ce484222325u64, |h, b| (h ^ b as u64).wrapping_mul(0x100000001b3)) >> 7 }
 fn shape_elems(a: &str) -> usize { let body = a.strip_prefix('i').unwrap_or(a); let sh = body.split(|c| c == '+' || c == ':').next().unwrap_or("-"); parse_usize_list(sh).iter().product() }
 fn elems_of(s: &str) -> usize { if s == "-" { 0 } else { s.split(';').map(shape_elems).sum() } }
 
@@ -985,7 +987,7 @@ fn exec_call(op: &str, args: &[&str], expected: &str) -> Option<Verdict> {
     // and the three odd-layout element types (12 / 3 / 32 bytes) with them; between 600 and 6000 input elements the odd layouts alone,
     // one case line in four (a tile of `64 / size_of::<T>()` elements only matters once a blocked path is entered)
     let more: u8 = { let n = elems_of(src) + if op == "append" { elems_of(args[1]) } else { 0 }; let h = args.iter().map(|a| a.len()).sum::<usize>();
-        if n <= 600 { if h % 3 == 0 { 7 } else { 0 } } else if n <= 6000 && h % 4 == 0 { 3 } else { 0 } };
+        if n <= 600 { if h % 3 == 0 { 7 } else { 0 } } else if n <= 6000 && fnv_args(args) % 4 == 0 { 3 } else { 0 } };
     let obs = run_call(op, args, more)?;
     match oracle(op, args) {
         None => { ORACLE_SILENT.fetch_add(1, Ordering::Relaxed); }
@@ -1012,9 +1014,9 @@ fn exec_native(args: &[&str], expected: &str) -> Option<Verdict> {
     ORACLE_ONLY.fetch_add(1, Ordering::Relaxed);
     let elems = elems_of(rest[0]);
     LITE.with(|l| l.set(elems > 5000));
-    // the odd-layout element types on one reference-judged line in four up to 40 000 elements (the 32-byte `Tuple2<String,i32>` up to
-    // 6000: the crate clones the whole array for every piece it cuts)
-    let obs = run_call(op, rest, if elems <= 40000 && rest.iter().map(|a| a.len()).sum::<usize>() % 4 == 0 { if elems <= 6000 { 3 } else { 1 } } else { 0 });
+    // the odd-layout element types on one reference-judged line in eight up to 40 000 elements (the 32-byte `Tuple2<String,i32>` up to
+    // 2000: the crate clones the whole array for every piece it cuts)
+    let obs = run_call(op, rest, if elems <= 40000 && fnv_args(rest) % 8 == 0 { if elems <= 2000 { 3 } else { 1 } } else { 0 });
     LITE.with(|l| l.set(false));
     let obs = obs?;
     if obs == want || (class_of(&obs) == "err" && want == "err") { return Some(Verdict::Match(format!("ok native ({} bytes as the harness-native reference)", obs.len()))); }
@@ -1096,7 +1098,7 @@ fn giant_run<T: Tagged>(op: &str, operands: &[(Vec<usize>, i64)], second: &Optio
     })
 }
 /// `g op operands params…` (`append`: two operand tokens): i64 tags on the plain receiver, the u8 image on `Ok(array)` (plain for the
-/// associated functions), a third of the lines also on the 12-byte tuple.  `g8`: the u8 image only (axes beyond 2^24 positions).
+/// associated functions), a third of the lines up to 1.3 million input elements also on the 12-byte tuple.  `g8`: the u8 image only (axes beyond 2^24 positions).
 fn exec_giant(only_u8: bool, args: &[&str], expected: &str) -> Option<Verdict> {
     if expected != "ok native" { return Some(compare_default("harness: a giant line expects the driver to answer `ok native`".into(), expected)); }
     let op = *args.first()?;
@@ -1105,11 +1107,12 @@ fn exec_giant(only_u8: bool, args: &[&str], expected: &str) -> Option<Verdict> {
     ORACLE_ONLY.fetch_add(1, Ordering::Relaxed); GIANT_CALLS.fetch_add(1, Ordering::Relaxed);
     let mut texts: Vec<String> = vec![];
     let mut step = |r: Option<Result<String, String>>| -> Option<Option<Verdict>> {
-        match r { None => Some(None), Some(Err(d)) => Some(Some(Verdict::Mismatch { observed: texts.last().cloned().unwrap_or_else(|| "-".into()), detail: format!("differs from the harness-native block-placement reference (compared with the model on every ordinary case of this run): {d}") })), Some(Ok(t)) => { texts.push(t); None } }
+        match r { None => Some(None), Some(Err(d)) => Some(Some(Verdict::Mismatch { observed: truncate(&d, 400), detail: format!("differs from the harness-native block-placement reference (compared with the model on every ordinary case of this run): {d}") })), Some(Ok(t)) => { texts.push(t); None } }
     };
     if !only_u8 { if let Some(v) = step(giant_run::<i64>(op, &operands, &second, params, false)) { return v; } }
     if let Some(v) = step(giant_run::<u8>(op, &operands, &second, params, !only_u8)) { return v; }
-    if !only_u8 && args.iter().map(|a| a.len()).sum::<usize>() % 3 == 0 { if let Some(v) = step(giant_run::<T3>(op, &operands, &second, params, false)) { return v; } }
+    let total: usize = operands.iter().chain(second.iter()).map(|o| o.0.iter().product::<usize>()).sum();
+    if !only_u8 && fnv_args(args) % 3 == 0 && total <= 1_300_000 { if let Some(v) = step(giant_run::<T3>(op, &operands, &second, params, false)) { return v; } }
     Some(Verdict::Match(format!("ok native ({} runs: {})", texts.len(), texts[0])))
 }
 
@@ -1195,6 +1198,6 @@ fn nontrivial(op: &str, args: &[&str]) -> bool {
 }
 
 fn main() {
-    harness_main(Spec { prop: "C11", gen, exec, nontrivial, hang_secs: 20,
+    harness_main(Spec { prop: "C11", gen, exec, nontrivial, hang_secs: 90,
         rule: "every shape rank<=4 len<=3 (+ lengths 4-7): array_split / split / split-then-concatenate for EVERY axis and every part count 1..len+2 (+0, axis none, axis out of range), split_axis, hsplit/vsplit/dsplit 0..4; concatenate/append of 2-4 arrays with seeded lengths 1..3 along EVERY axis (+ off-axis mismatch, rank mismatch, flat form), stack on every axis (+none, rank, rank+1), the five conveniences on equal shapes / shapes differing along the stacking axis / off-axis mismatches / mixed ranks / empty lists; off-axis mismatches that keep the product of the other axes (permuted / regrouped off-axis lengths, rank 3-4, every axis, both orders, first and later pair) for append/concatenate/vstack/row_stack/hstack/column_stack/dstack, permuted shapes for stack and column_stack - all must be refused; zero-size shapes (lib zero_shapes + [2,0,3],[0,2,2],[3,0,2],[2,2,0,2]): append/concatenate with partners of length 0..2 on every axis, stack, the five conveniences, every split; seeded random rank<=5. Robustness streams: sizes (lib big_shapes + shapes at/around 256, 1024, 4096 elements in rank 2-4, up to [70,70]/[16,20,16]/[8,8,8,8], rank 8): every split op on every axis with part counts 2,3,4,5,7,len-1,len,len+1,2len and the round trip (>= 2000 elements: one uneven part count per axis + round trip + parts beyond the length), joining the big array with 1-2 partners of length 1..3 on every axis, stack and the conveniences; joining along an axis followed by a long contiguous run (23 templates, trailing product 31..1030, outer extent 1..17) x 12 combinations of equal/unequal/zero lengths for 2 and 3 inputs through append (both orders), concatenate, stack, the convenience of that axis and the round trip; arrays holding the zero tag in most positions (f64/f32 image -0.0, bit-wise) through every op incl. column_stack of vectors and matrices; seeded random rank 2-4 with axis lengths <= 17. EVERY case runs on Array<i64> (the compared answer), on the u8 and f64 (tag 0 = -0.0, bit-wise) images, one small case in three also on i8 / bool / String / f32; append and the six splitting methods on the plain receiver AND on Ok(array) through the Result-receiver impls (ArrayJoining has associated functions only); the i64 call twice; any divergence fails the case. Tag arrays.  Part 2: seq lines (calls back to back on one thread: colliding shapes, colliding (axis length, part count) pairs incl. a long axis after its residue modulo 65536, refused-then-valid, A-B-A), n lines (16384..140000 elements, axes above 65536, >64 parts, every axis length 1..300) judged by the harness-native block-placement reference, which is compared with the full model answer on every other case of the run (oracle_report lines); append_self (aliasing); lists of 5-9 arrays, ranks 5-8; implicit A-B-A re-runs in exec. non-trivial: >=2 parts on rank>=2, or >=2 arrays joined (seq / n lines: some call of the line)" });
 }
